@@ -98,6 +98,9 @@ type GenOpts struct {
 	// for byte, except for a timestamp (field 253) a few seconds later: a device re-sending a
 	// message, values related across consecutive messages.
 	RepeatPrev int
+	// DevDescribe: chance in 100 that a definition with developer fields is preceded by the
+	// developer_data_id and field_description messages that announce them.
+	DevDescribe int
 	// BigFileId: chance in 100 that the leading file_id carries several long unlisted fields
 	// (a first record of more than 512, sometimes more than 4096 bytes).
 	BigFileId int
@@ -692,11 +695,38 @@ func (g *PlanGen) Define(local byte, m uint16, knownMsg bool) {
 			def.Dev = append(def.Dev, ref.DevDef{Num: rng.Byte(), Size: byte(sizes[rng.Intn(len(sizes))]), Idx: byte(rng.Intn(3))})
 		}
 	}
+	if g.O.DevDescribe > 0 && len(def.Dev) > 0 && len(def.Dev) <= 8 && rng.Chance(g.O.DevDescribe, 100) {
+		// Developer fields announced the way a device does it: a developer_data_id message for
+		// the developer index and a field_description per field (index, field number, base type
+		// id - any byte, also ones that are no base type), written on this very slot just before
+		// the definition that uses them.
+		did, fdesc := p.Field(207, 3), p.Field(206, 0)
+		if did != nil && fdesc != nil && p.Field(206, 1) != nil && p.Field(206, 2) != nil {
+			seen := map[byte]bool{}
+			for _, dd := range def.Dev {
+				if !seen[dd.Idx] {
+					seen[dd.Idx] = true
+					g.P.Records = append(g.P.Records,
+						ref.Record{IsDef: true, Local: local, Arch: def.Arch, Global: 207, Fields: []ref.FieldDef{{Num: 3, Size: 1, Base: 0x02}}},
+						ref.Record{Local: local, Data: [][]byte{{dd.Idx}}})
+				}
+				bb := knownBaseCodesGen[rng.Intn(len(knownBaseCodesGen))]
+				if rng.Chance(3, 10) {
+					bb = rng.Byte()
+				}
+				g.P.Records = append(g.P.Records,
+					ref.Record{IsDef: true, Local: local, Arch: def.Arch, Global: 206, Fields: []ref.FieldDef{{Num: 0, Size: 1, Base: 0x02}, {Num: 1, Size: 1, Base: 0x02}, {Num: 2, Size: 1, Base: 0x02}}},
+					ref.Record{Local: local, Data: [][]byte{{dd.Idx}, {dd.Num}, {bb}}})
+			}
+		}
+	}
 	g.P.Records = append(g.P.Records, def)
 	d := def
 	g.defs[local] = &d
 	g.last[local] = nil
 }
+
+var knownBaseCodesGen = []byte{0x00, 0x01, 0x02, 0x83, 0x84, 0x85, 0x86, 0x07, 0x88, 0x89, 0x0A, 0x8B, 0x8C, 0x0D, 0x8E, 0x8F, 0x90}
 
 // DefineSimilar redefines slot local with a near-copy of its current definition.
 func (g *PlanGen) DefineSimilar(local byte) {
